@@ -104,6 +104,16 @@ def classify_crash(rc, err, out):
             if f and ("of size" in blk or "Previous" in blk):
                 funcs.append(f.group(1))
         funcs = sorted(set(funcs))[:2]
+        # a race whose conflicting access sits in the harness itself (top frame under /verif) is a harness bug
+        tops = []
+        lines = err.splitlines()
+        for k, line in enumerate(lines[:-1]):
+            if re.search(r"of size \d+ at 0x", line):
+                mm = re.search(r"\s(/[^\s:]+):\d+", lines[k + 1])
+                if mm:
+                    tops.append(mm.group(1))
+        if any(t.startswith(VERIF + "/") for t in tops):
+            return ("INFRA", "harness-race", first_lines(err, 14))
         return ("RACE", kind + "@" + "+".join(funcs), first_lines(err, 14))
     m = re.search(r"ERROR: AddressSanitizer: ([A-Za-z0-9_-]+)", err)
     if m:
